@@ -10,16 +10,20 @@ from .common import func_params, value_returns, last_return, raise_class, is_exc
 
 PROPERTY = 'C07'
 EXPLANATION = (
-    'Decided from source: (C07.1) every registered function is stored wrapped by validate_args (register outermost), '
-    'except the frozen table of error inspectors and parameterless functions; (C07.2) every handler that swallows an '
-    'ExcelError (catches it and neither re-raises nor returns it) is enumerated and triaged in a frozen table: '
-    'conversion attempts on non-error values are accepted, handlers reachable with an error *value* are findings, an '
-    'unknown swallowing handler is a violation; (C07.3) partial native arithmetic reachable from the operator '
-    'functions through the ExcelType dunders is guarded or converted; (C07.4) complete decision tables of '
-    'ISERROR/ISERR/ISNA/NA and ISNUMBER/ISTEXT/ISBLANK over the error-class lattice and the value classes; (C07.5) the '
-    'validate_args contract: arguments visited in signature order, an error argument returned before any conversion, '
-    'conversion and call wrapped in handlers that return the raised ExcelError.'
-    ' (C07.6) operator nodes evaluate every operand on every evaluation and hand both values to the operator function (no value-dependent shortcut that could drop an error operand); (C07.4) is computed on real error/value instances and on texts that merely spell an error code.')
+    'Decided from source, mostly by interpreting the registered functions as the evaluator calls them '
+    '(validate_args and private decorators as written, value/error classes as written): (C07.1) every registered '
+    'function is stored wrapped by validate_args (register outermost), except the frozen table of error inspectors '
+    'and parameterless functions; (C07.2) aggregating functions: an error value among the arguments of a '
+    'var-positional parameter or inside an array argument is the result (IS*/COUNT family and CHOOSE excepted) - '
+    'known finding F13 for SUM, AVERAGE, MIN, MAX, NPV, CONCAT, CONCATENATE; (C07.3) the twelve operators on every '
+    'ordered pair of scalar operand kinds incl. hazardous ones (zero, negative, huge, non-numeric text, blank, '
+    'boolean) end in a value or an Excel error value, never in a Python exception - known finding F14 for ^; '
+    '(C07.4) ISERROR/ISERR/ISNA and ISNUMBER/ISTEXT/ISBLANK over real instances of the error-class lattice and the '
+    'value classes, and over texts that merely spell an error code; (C07.5) the validate_args contract: arguments '
+    'visited in signature order, an error argument returned before any conversion, conversion and call wrapped in '
+    'handlers that return the raised ExcelError; (C07.6) operator nodes evaluate every operand on every evaluation '
+    'and hand both values to the operator function; (C07.7) every validated function with scalar parameters only '
+    'returns an error argument - that very object - at every position, the leftmost of two.')
 NOT_DECIDED = ('value-level "leftmost error" for nested expressions; every function x position x code combination '
                'beyond what C07.1/C07.2/C07.5 make structural')
 TRUSTED = ['model of inspect.signature(...).bind: arguments in signature order']
